@@ -102,23 +102,46 @@ theorem C07_backref_after_return_example :
     ((scReach scCfgAB [[0], [1]] scSchedLateBack2).objs 1).backs = [(0, 0)] := by
   refine ⟨⟨⟨1, 1, 1, false, false, true, 1⟩, ?_, ?_⟩, ?_, ?_⟩ <;> decide +kernel
 
-/-! ### clause.Where.Build on a shared handle (finding F11) -/
+/-! ### clause.Where.Build on a shared handle (finding F11)
+
+  `WhereSwap.writes` = the cells of the handle's SHARED `Exprs` array that `Build` assigns, for the code that exists in the
+  tree: the regenerated `Gen.whereBuildElemAssigns` says whether Build assigns `where.Exprs[i]` at all (unchanged tree) or
+  swaps on a copy (tree carrying fixes/F23.patch).  The statements below are the same on both trees. -/
 
 open Gorm.WhereSwap in
 /-- A statement built from a shared handle assigns NO cell of the handle's `Exprs` array unless the WHERE list starts with a
-  single Or (extra hypothesis = negation of the F11 pattern). -/
+  single Or (extra hypothesis = negation of the F11 pattern) — on either tree. -/
 theorem C07_where_build_readonly_partial (es : List EK) (h : es.head? ≠ some .singleOr) : writes es = [] :=
-  writes_nil_of_head es h
+  writesOf_nil_of_head _ es h
 
 open Gorm.WhereSwap in
-/-- exact characterisation of when `Where.Build` writes to the shared array -/
+/-- exact characterisation of when a `Where.Build` that swaps IN PLACE writes to the shared array -/
 theorem C07_where_build_writes_iff (es : List EK) :
-    writes es ≠ [] ↔ (es.head? = some .singleOr ∧ EK.other ∈ es) :=
-  writes_ne_nil_iff es
+    writesOf true es ≠ [] ↔ (es.head? = some .singleOr ∧ EK.other ∈ es) := by
+  simpa [writesOf] using writes_ne_nil_iff es
 
 open Gorm.WhereSwap in
-/-- F11: `db.Or(a).Where(b)` — Build swaps cells 0 and 1 of the shared array in place -/
-theorem C07_where_swap_write_counterexample : writes [EK.singleOr, EK.other] = [0, 1] := by decide
+/-- F11: `db.Or(a).Where(b)` — an in-place Build swaps cells 0 and 1 of the shared array -/
+theorem C07_where_swap_write_counterexample : writesOf true [EK.singleOr, EK.other] = [0, 1] := by decide
+
+open Gorm.WhereSwap in
+/-- FULL statement for a `Where.Build` that swaps on a copy: no cell of the shared array is ever assigned (Build only READS
+  the handle's array), for every WHERE list -/
+theorem C07_where_build_copy_readonly (es : List EK) : writesOf false es = [] := writesOf_copy es
+
+open Gorm.WhereSwap in
+/-- WHAT HOLDS FOR THE CURRENT SOURCE TREE, decided by the regenerated fact: either Build assigns no `where.Exprs[i]` and is
+  read-only on the shared array for every list, or it swaps in place, the F11 witness writes cells 0 and 1, and it is
+  read-only outside the F11 pattern. -/
+theorem C07_where_build_current_tree :
+    (swapsInPlace = false ∧ ∀ es : List EK, writes es = []) ∨
+    (swapsInPlace = true ∧ writes [EK.singleOr, EK.other] = [0, 1] ∧
+      ∀ es : List EK, es.head? ≠ some .singleOr → writes es = []) := by
+  cases h : swapsInPlace with
+  | false => exact Or.inl ⟨rfl, fun es => by simp [writes, writesOf, h]⟩
+  | true =>
+    refine Or.inr ⟨rfl, ?_, fun es he => writesOf_nil_of_head _ es he⟩
+    simp only [writes, h]; decide
 
 /-- a model whose only relation field is invalid -/
 def scCfgBad : Cfg := [[⟨0, false, true⟩]]
